@@ -73,7 +73,8 @@ def cases(ctx):
            rng.choice(["none", "none", "list"]))
   for _ in ctx.loop(9000, 300000):
     op = rng.choice(["add", "sub", "mul", "scal", "rscal", "neg", "distrib",
-                     "square", "addself", "sadd", "ssub", "rsadd", "rssub"])
+                     "square", "addself", "sadd", "ssub", "rsadd", "rssub",
+                     "pow2", "pow3", "pow4"])
     f_den = riir_den(rng, 2) if rng.random() < 0.4 else {0: 1}
     yield ("tvalg", op, (rfir(rng, 2), f_den), rfir(rng, 2), rfir(rng, 2),
            rng.choice([2, -3, 4, -1, 0.5]), rng.choice([1, 3, 6, 9, 13]))
@@ -211,7 +212,7 @@ def run_case(ctx, case):
   SCALAR_OPS = ("scal", "rscal", "neg", "sadd", "ssub", "rsadd", "rssub")
   if op in SCALAR_OPS:
     specs = [fnum, fden]
-  elif op in ("square", "addself"):
+  elif op in ("square", "addself", "pow2", "pow3", "pow4"):
     specs = [gnum]
   else:
     specs = [fnum, fden, gnum] + ([hnum] if op == "distrib" else [])
@@ -244,6 +245,10 @@ def run_case(ctx, case):
       nn, dd = pmul(gn, gn), {0: Fraction(1)}
     elif op == "addself":     # g + g
       nn, dd = pscale(gn, 2), {0: Fraction(1)}
+    elif op in ("pow2", "pow3", "pow4"):      # g ** n: the library copies
+      nn, dd = gn, {0: Fraction(1)}
+      for _ in range(int(op[3]) - 1):
+        nn = pmul(nn, gn)
     tables_num.append(nn)
     tables_den.append(dd)
   if op == "distrib" and not any(tables_num) and not any(
@@ -258,10 +263,11 @@ def run_case(ctx, case):
   want = recursion(mnum, mden, x[:n_out], None, 0) if n_out else []
 
   f = build(src, fnum, fden, "dict")
-  if op in ("square", "addself"):
+  if op in ("square", "addself", "pow2", "pow3", "pow4"):
     src = Sources()          # f is unused here: only g's sources are judged
     g = build(src, gnum, one, "dict")
-    res_f = g.copy() * g if op == "square" else g.copy() + g
+    res_f = g.copy() * g if op == "square" else g.copy() + g \
+        if op == "addself" else g ** int(op[3])
   else:
     g = build(src, gnum, one, "dict")
     if op == "add":
@@ -310,5 +316,6 @@ def finish(ctx):
             "streams-per-filter:2", "streams-per-filter:4"]:
     ctx.need(k, 30)
   for op in ["add", "sub", "mul", "scal", "rscal", "neg", "distrib", "square",
-             "addself", "sadd", "ssub", "rsadd", "rssub"]:
+             "addself", "sadd", "ssub", "rsadd", "rssub", "pow2", "pow3",
+             "pow4"]:
     ctx.need("algebra:" + op, 30)
